@@ -43,6 +43,37 @@ def text_ok(lines, name, kind, da, is_star):
     return None
 
 
+_other = {}
+
+
+def other_file_position(path, loc):
+    """a position reported in ANOTHER file must be (1, 0) (the module) or the start of an identifier / except / * token there"""
+    if loc == (1, 0):
+        return None
+    if path not in _other:
+        if len(_other) > 200:
+            _other.clear()
+        src = corpus.read(path)
+        if src is None:
+            _other[path] = None
+        else:
+            try:
+                _other[path] = (set(layout.name_token_ordinals(src)), src.splitlines())
+            except Exception:
+                _other[path] = None
+    info = _other[path]
+    if info is None:
+        return None
+    toks, lines = info
+    if not (1 <= loc[0] <= len(lines)) or loc[1] < 0:
+        return 'outside-file'
+    if not lines[loc[0] - 1].isascii():
+        return None
+    if loc not in toks:
+        return 'not-a-token-start'
+    return None
+
+
 def check_source(sh, src, filename, origin, nloc, rnd):
     """-> (signature, detail) or None"""
     from supp import assistant
@@ -135,6 +166,9 @@ def check_source(sh, src, filename, origin, nloc, rnd):
                 elif e['file']:
                     if not os.path.exists(e['file']):
                         return ('location-file-missing', repr(e))
+                    bad = other_file_position(e['file'], loc)
+                    if bad:
+                        return ('location-position-in-other-file:' + bad, 'location() from %s at %s reports %s in %s' % (n.id, (n.lineno, n.col_offset), loc, e['file']))
     return None
 
 
@@ -290,16 +324,98 @@ def w_shapes(job):
     return sh.result()
 
 
+CROSS_TARGET = '''import os
+
+
+class Wide(object):
+    alpha = 1
+
+    def method(self):
+        self.inst = 2
+        return self
+
+    class Inner(object):
+        deep = 3
+
+
+def helper(value):
+            nested_name = value
+            return Wide()
+'''
+
+
+def w_crossfile(job):
+    """go-to-definition into ANOTHER file whose definition sits on the same line NUMBER as the cursor, right of the cursor column"""
+    import tempfile
+    import shutil
+    sh = Shard()
+    root = tempfile.mkdtemp(prefix='c11x_')
+    try:
+        with open(os.path.join(root, 'crosstarget.py'), 'w') as f:
+            f.write(CROSS_TARGET)
+        from supp.project import Project
+        from supp import assistant
+        tree = ast.parse(CROSS_TARGET)
+        exprs = {'alpha': 'W.alpha', 'method': 'W().method', 'inst': 'W().method().inst', 'Inner': 'W.Inner', 'deep': 'W.Inner.deep',
+                 'helper': 'h', 'Wide': 'W'}
+        targets = []
+        for node in ast.walk(tree):
+            if isinstance(node, ast.ClassDef):
+                targets.append((node.name, node.lineno))
+            elif isinstance(node, ast.FunctionDef):
+                targets.append((node.name, node.lineno))
+            elif isinstance(node, ast.Assign):
+                t = node.targets[0]
+                targets.append((t.attr if isinstance(t, ast.Attribute) else t.id, node.lineno))
+        for name, line in targets:
+            expr = exprs.get(name)
+            if not expr:
+                continue
+            for pad in (0, 1):
+                head = ['from crosstarget import Wide as W, helper as h'] + ['#'] * (line - 2 + pad)
+                src = '\n'.join(head + [expr]) + '\n'
+                fn = os.path.join(root, 'probe.py')
+                for col in range(max(1, len(expr) - len(name)), len(expr) + 1):
+                    pos = (len(head) + 1, col)
+                    sh.case((src, pos), True, {'probe': expr, 'cursor': pos, 'target_line_in_other_file': line})
+                    sh.count('cross-file-probes')
+                    try:
+                        res = assistant.location(Project([root]), src, pos, fn)
+                    except Exception:
+                        sh.count('location-raised')
+                        continue
+                    for r in res:
+                        for e in (r if isinstance(r, list) else [r]):
+                            if e['file'] and e['file'] != fn:
+                                bad = other_file_position(e['file'], tuple(e['loc']))
+                                txt_ok = True
+                                if not bad and tuple(e['loc']) != (1, 0):
+                                    l, c = e['loc']
+                                    tl = CROSS_TARGET.splitlines()[l - 1]
+                                    txt_ok = tl[c:c + len(name)] == name or tl[c:c + 4] == 'self'
+                                if bad or not txt_ok:
+                                    sh.violation('location-position-in-other-file:%s' % (bad or 'wrong-identifier'),
+                                                 {'src': src, 'filename': fn, 'cross': True, 'pos': list(pos)},
+                                                 'probe %r cursor %s: reported %s in crosstarget.py (definition of %s is on line %d)' % (expr, pos, e['loc'], name, line))
+                                    return sh.result()
+    finally:
+        shutil.rmtree(root, ignore_errors=True)
+    return sh.result()
+
+
 def run(run):
     files = corpus.sample(core.derive_seed(run.seed, 'c11f'), run.pick(70, 1750), include_repo=True, max_bytes=run.pick(60000, None))
     run.pmap(w_files, [(s, core.derive_seed(run.seed, 'c11', i), run.pick(25, 200), run.pick(1, 4)) for i, s in enumerate(corpus.shards(files, 16))])
     run.pmap(w_shapes, [(i, core.derive_seed(run.seed, 'c11s', i), run.pick(80, 2500)) for i in range(16)])
+    run.pmap(w_crossfile, [0])
     d = run.counters.get('discard:syntax', 0)
     m = run.counters.get('shape-modules', 0)
     run.extra['shape_discard_rate'] = round(d / max(1, d + m), 4)
 
 
 def replay(case):
+    if case.get('cross'):
+        return w_crossfile(0)['violations']
     fn = case.get('filename') or suppview.filename_for(False)
     bad = check_source(Shard(), case['src'], fn, 'replay', 10 ** 6, random.Random(0))
     if bad:
